@@ -113,10 +113,14 @@ func panicToError(e interface{}) error {
 	frames := runtime.CallersFrames(pcs[:n])
 	var trace []string
 	origin := ""
+	pastPanic := false
 	for {
 		f, more := frames.Next()
+		if f.Function == "runtime.gopanic" {
+			pastPanic = true // frames before it belong to the deferred recover function
+		}
 		if f.Function != "" && !strings.HasPrefix(f.Function, "runtime.") {
-			if origin == "" {
+			if origin == "" && pastPanic {
 				origin = f.File
 			}
 			if len(trace) < 12 {
